@@ -145,6 +145,7 @@ type (
 	Replay       = proto.Replay
 	Report       = proto.Report
 	KnownFinding = proto.KnownFinding
+	FileOp       = proto.FileOp
 )
 
 // ---------------------------------------------------------------------------------
